@@ -70,6 +70,15 @@ def _generate(qual):
     if qual.startswith("lemma:"):
         obs = verify_lemma(qual[6:], axioms)
         return obs, None, None, dict(obligations=obs, paths=1, error=None, meta={})
+    if qual.startswith("rel:"):
+        from pyvc.relational import RELATIONS
+        obs = RELATIONS[qual[4:]](SourceIndex(REPO).load_tree(), MODELS, axioms)
+        seen = {}
+        for ob in obs:
+            seen[ob.name] = seen.get(ob.name, 0) + 1
+            if seen[ob.name] > 1:
+                ob.name = f"{ob.name}#{seen[ob.name]}"
+        return obs, None, None, dict(obligations=obs, paths=1, error=None, meta={})
     src = SourceIndex(REPO).load_tree()
     con = REGISTRY[qual]
     res = verify_function(src, con, MODELS, axioms=axioms)
@@ -120,7 +129,7 @@ def _discharge_smt2(job):
         if d["verdict"] != "unsat":
             rec["reason"] = d.get("reason", "")
             rec["goal"] = str(goal)[:1500]
-            if d["verdict"] == "sat":
+            if d["verdict"] in ("sat", "sat?"):
                 rec["model"] = findings.extract_model(d["model_obj"], ob, con)
             kf = findings.match(prop, name)
             if kf is not None:
@@ -276,7 +285,7 @@ def run_property(prop, tier="quick", seed=0):
     from props.table import PROPS
     spec = PROPS[prop]
     quals = [q for q, c in REGISTRY.items() if prop in c.props and not c.inline and not c.trusted]
-    lem = [f"lemma:{n}" for n in spec.get("lemmas", [])]
+    lem = [f"lemma:{n}" for n in spec.get("lemmas", [])] + [f"rel:{n}" for n in spec.get("relations", [])]
     tasks = sorted(quals + lem, key=lambda q: -HEAVY.get(q, 1))
     os.makedirs(OUT, exist_ok=True)
     # the bounded stand-in runs concurrently (it is re-run with the verifier's counter-models as hints only if an obligation fails)
@@ -316,8 +325,9 @@ def run_property(prop, tier="quick", seed=0):
         by_q.setdefault(job[8] or job[1].split("/")[0] + "/" + job[1].split("/")[1], []).append(rec)
     results = []
     for g in gens:
-        key = g["qual"] if not g["qual"].startswith("lemma:") else None
-        recs = by_q.get(g["qual"], []) if key else [r for job, r in zip(all_jobs, out) if job[1].startswith("lemma/" + g["qual"][6:])]
+        key = g["qual"] if not (g["qual"].startswith("lemma:") or g["qual"].startswith("rel:")) else None
+        pre = ("lemma/" + g["qual"][6:]) if g["qual"].startswith("lemma:") else ("rel/" + g["qual"][4:])
+        recs = by_q.get(g["qual"], []) if key else [r for job, r in zip(all_jobs, out) if job[1].startswith(pre)]
         errs = [r for r in recs if r["verdict"] == "error"]
         results.append(dict(qual=g["qual"], error=g.get("error") or (("CHECKER-ERROR " + errs[0]["error"]) if errs else None),
                             results=[r for r in recs if r["verdict"] != "error"], paths=g.get("paths", 0), gen_s=g.get("gen_s"), fn=g.get("fn"),
